@@ -240,28 +240,67 @@ func handle(req *request) (res *result) {
 	}
 	w.NextBlock()
 
-	// the block under test
-	var txns []*transaction.Transaction
-	for _, line := range req.Txns {
+	// the transactions, split into blocks at `next`; the last block is the block under test, the earlier ones are the history
+	// that a warm node has executed itself (its state cache holds their values) and a cold node has not
+	type item struct {
+		idx int
+		t   *transaction.Transaction
+	}
+	var blocks [][]item
+	var cur []item
+	res.Txns = make([]txnResult, len(req.Txns))
+	res.OutputHashes = make([]string, len(req.Txns))
+	for i, line := range req.Txns {
+		if strings.TrimSpace(line) == "next" {
+			blocks = append(blocks, cur)
+			cur = nil
+			res.Txns[i] = txnResult{Status: -1}
+			continue
+		}
 		t, err := tb.build(line)
 		if err != nil {
 			panic(err)
 		}
-		txns = append(txns, t)
+		cur = append(cur, item{i, t})
 	}
-	if os.Getenv("C06_WARM") == "true" {
-		// warm: the same block was already executed once by this process on a sibling state and its cache committed
-		sib := &engine.World{C: w.C, NDB: w.NDB, Prev: w.Prev, Round: w.Round - 1, Now: w.Now}
-		sib.NextBlock()
-		for _, t := range txns {
-			sib.Exec(t.Clone())
+	blocks = append(blocks, cur)
+	runGen := func(items []item) {
+		for _, it := range items {
+			t := it.t.Clone()
+			evs, err := w.Exec(t)
+			tr := txnResult{Status: t.Status, Output: t.TransactionOutput}
+			if err != nil {
+				tr.Status = 0
+				tr.Err = err.Error()
+			}
+			tr.Root = w.Root()
+			tr.Changes = w.State.GetChangeCount()
+			for _, e := range evs {
+				tr.Events = append(tr.Events, eventLine(e))
+			}
+			res.Txns[it.idx] = tr
+			res.OutputHashes[it.idx] = t.ComputeOutputHash()
 		}
-		sib.BC.Commit()
 	}
-	if req.DelayMs > 0 {
-		time.Sleep(time.Duration(req.DelayMs) * time.Millisecond)
-	}
-	if req.Verify != nil {
+	for bi, items := range blocks {
+		last := bi == len(blocks)-1
+		if !last {
+			runGen(items)
+			w.NextBlock()
+			continue
+		}
+		if os.Getenv("C06_WARM") != "true" {
+			// cold: this node did not execute the history itself (restart, state sync): every value comes from the trie
+			w.C.SetupStateCache()
+			w.BC = statecache.NewBlockCache(w.C.GetStateCache(), statecache.Block{Round: w.B.Round, Hash: w.B.Hash, PrevHash: w.B.PrevHash})
+		}
+		if req.DelayMs > 0 {
+			time.Sleep(time.Duration(req.DelayMs) * time.Millisecond)
+		}
+		if req.Verify == nil {
+			runGen(items)
+			break
+		}
 		// verifier path: the real Block.ComputeState on a block carrying the generator's state hash and output hashes
 		b := block.NewBlock("", w.Round)
 		b.Hash = w.B.Hash
@@ -271,28 +310,23 @@ func handle(req *request) (res *result) {
 		b.MinerID = w.B.MinerID
 		root, _ := hex.DecodeString(req.Verify.Root)
 		b.ClientStateHash = root
-		for i, t := range txns {
-			if i < len(req.Verify.Skip) && req.Verify.Skip[i] {
+		var kept []item
+		for _, it := range items {
+			if it.idx < len(req.Verify.Skip) && req.Verify.Skip[it.idx] {
 				continue // the generator would not have put a rejected transaction into the block
 			}
-			c := t.Clone()
-			c.OutputHash = req.Verify.OutputHashes[i]
+			c := it.t.Clone()
+			c.OutputHash = req.Verify.OutputHashes[it.idx]
 			b.Txns = append(b.Txns, c)
+			kept = append(kept, it)
 		}
-		err := b.ComputeState(context.Background(), w.C)
-		if err != nil {
+		if err := b.ComputeState(context.Background(), w.C); err != nil {
 			res.VerifyErr = "Block.ComputeState: " + err.Error()
 		}
 		// what the verifier's execution produced per transaction (for attribution of a failure)
-		k := 0
-		for i := range txns {
-			if i < len(req.Verify.Skip) && req.Verify.Skip[i] {
-				res.Txns = append(res.Txns, txnResult{})
-				continue
-			}
+		for k, it := range kept {
 			t := b.Txns[k]
-			k++
-			res.Txns = append(res.Txns, txnResult{Status: t.Status, Output: t.TransactionOutput})
+			res.Txns[it.idx] = txnResult{Status: t.Status, Output: t.TransactionOutput}
 			if res.VerifyErr == "" && t.TransactionType == transaction.TxnTypeSmartContract {
 				if err := t.VerifyOutputHash(context.Background()); err != nil {
 					res.VerifyErr = "VerifyOutputHash: " + err.Error()
@@ -301,26 +335,8 @@ func handle(req *request) (res *result) {
 		}
 		return res
 	}
-	// generator path
-	for _, t0 := range txns {
-		t := t0.Clone()
-		evs, err := w.Exec(t)
-		tr := txnResult{Status: t.Status, Output: t.TransactionOutput}
-		if err != nil {
-			tr.Status = 0
-			tr.Err = err.Error()
-		}
-		tr.Root = w.Root()
-		tr.Changes = w.State.GetChangeCount()
-		for _, e := range evs {
-			tr.Events = append(tr.Events, eventLine(e))
-		}
-		res.Txns = append(res.Txns, tr)
-		res.OutputHashes = append(res.OutputHashes, t.ComputeOutputHash())
-	}
 	res.Root = w.Root()
 	res.Changes = w.State.GetChangeCount()
-	_ = statecache.NewEmpty
 	return res
 }
 
